@@ -104,6 +104,10 @@ def pcode(p):
         return "(PNe %s)" % vlib.zlit(p.get("c", 0))
     if k == "par":
         return "(PPar %s)" % vlib.zlit(p.get("c", 0))
+    if k == "mod":
+        return "(PMod %s %s)" % (vlib.zlit(p.get("c", 0)), vlib.zlit(p.get("r", 0)))
+    if k == "in":
+        return "(PIn %s)" % vlib.zlist(p.get("xs", []))
     return {"true": "PTrue", "false": "PFalse"}[k]
 
 
@@ -136,6 +140,8 @@ def ecode(t):
         return "(EJoin %s %s)" % (JC[t["j"]], ecode(t["s"]))
     if o == "joine":
         return "(EJoinE %s %s)" % (ecode(t["b"]), ecode(t["s"]))
+    if o == "when":
+        return "(EWhen %s %s)" % (pcode(t["p"]), ecode(t["s"]))
     raise ValueError(o)
 
 
@@ -162,6 +168,7 @@ def to_coq(c):
 # ---------------------------------------------------------------- pretty printing
 def ppred(p):
     return {"lt": "x<%d" % p.get("c", 0), "ne": "x!=%d" % p.get("c", 0), "par": "x%%2==%d" % p.get("c", 0),
+            "mod": "x%%%d==%d" % (p.get("c", 0), p.get("r", 0)), "in": "x in %s" % p.get("xs", []),
             "true": "true", "false": "false"}[p["k"]]
 
 
@@ -187,6 +194,8 @@ def pexpr(t):
         return "Join(%s, %s)" % (pexpr(t["s"]), {"repl": "x->FromSlice(x repeated x%3 times)", "range": "x->FromSlice([x..x+x%4))", "nil": "x->nil"}[t["j"]])
     if o == "joine":
         return "Join(%s, x->%s)" % (pexpr(t["s"]), pexpr(t["b"]))
+    if o == "when":
+        return "[%s ? %s : nil]" % (ppred(t["p"]), pexpr(t["s"]))
     raise ValueError(o)
 
 
@@ -202,6 +211,10 @@ def pmode(m):
 # (a third reading of the codes, used to SHOW what was required; the verdict is Coq's Check.C14.oracle)
 def ip(p, v):
     k = p["k"]
+    if k == "mod":
+        return v % p.get("c", 0) == p.get("r", 0)
+    if k == "in":
+        return v in p.get("xs", [])
     return {"lt": v < p.get("c", 0), "ne": v != p.get("c", 0), "par": v % 2 == p.get("c", 0), "true": True, "false": False}[k]
 
 
@@ -225,6 +238,8 @@ def pden(t, x=0):
         return [x + y for y in t.get("xs", [])]
     if o == "plus":
         return pden(t["l"], x) + pden(t["r"], x)
+    if o == "when":
+        return pden(t["s"], x) if ip(t["p"], x) else []
     l = pden(t["s"], x)
     if o == "takew":
         r = []
